@@ -117,6 +117,7 @@ impl BatchRegime {
 
 /// Batch sender that queues packets and flushes them efficiently
 #[derive(Debug)]
+#[cfg_attr(feature = "verif-hooks", derive(Clone))]
 pub struct BatchSender {
     /// Queue of packets waiting to be sent
     queue: Vec<SmallVec<u8, 1500>>,
@@ -336,5 +337,28 @@ mod tests {
             assert!(!sender.queue_packet(&data, Some(i as u32), 0));
         }
         assert!(sender.queue_packet(&data, Some(31), 0));
+    }
+}
+
+/// Read-only view of the private queue for the verification harness.
+#[cfg(feature = "verif-hooks")]
+impl BatchSender {
+    /// `(bytes, seq, queue_time_ms)` of every queued datagram, in queue order.
+    pub fn verif_queue(&self) -> Vec<(Vec<u8>, Option<u32>, u64)> {
+        self.queue
+            .iter()
+            .zip(self.sequences.iter())
+            .zip(self.queue_times.iter())
+            .map(|((d, s), t)| (d.to_vec(), *s, *t))
+            .collect()
+    }
+
+    /// Lengths of the three parallel vectors (must always be equal).
+    pub fn verif_lens(&self) -> (usize, usize, usize) {
+        (self.queue.len(), self.sequences.len(), self.queue_times.len())
+    }
+
+    pub fn verif_last_flush_ms(&self) -> u64 {
+        self.last_flush_ms
     }
 }
